@@ -66,7 +66,7 @@ CrDesign(in) ==
       dst(i) == CrScan(in, in.reds[i][2])
       bad(i) == src(i) = P!ZeroW \/ (Bug # "CrDstUnchecked" /\ dst(i) = P!ZeroW)
       B == {i \in 1..n : bad(i)}
-      err(i) == <<P!CrPos(i), IF src(i) = P!ZeroW THEN "src" ELSE "dst", in.reds[i][IF src(i) = P!ZeroW THEN 1 ELSE 2]>>
+      names(S) == [i \in 1..n |-> i \in S]                \* the redirects the diagnostics name
       nw == (T!MaxOf({in.sec, 16 * n, 0}) + 32) \div 8
       blank == [k \in 1..nw |-> in.fill]
       rec(i) == IF Bug = "CrSwap" THEN <<dst(i), src(i)>> ELSE <<src(i), dst(i)>>
@@ -75,11 +75,11 @@ CrDesign(in) ==
       kept == IF Bug = "CrSkipMissing" THEN SelectSeq(ord, LAMBDA i : ~bad(i)) ELSE SubSeq(ord, 1, upto)
       tbl == Cat([k \in 1..Len(kept) |-> rec(kept[k])], 1)
       written == [k \in 1..nw |-> IF k <= Len(tbl) THEN tbl[k] ELSE in.fill]
-      fail(errs) == [res |-> "exit", words |-> IF Bug = "CrPartial" THEN written ELSE blank, outside |-> 0, errs |-> errs]
-  IN IF ~in.symtab \/ in.sec < 0 THEN [res |-> "exit", words |-> blank, outside |-> 0, errs |-> <<>>]
-     ELSE IF B # {} /\ Bug # "CrSkipMissing" THEN fail([k \in 1..Cardinality(B) |-> err(CHOOSE i \in B : Cardinality({j \in B : j < i}) = k - 1)])
-     ELSE IF Strict /\ in.sec < 16 * n THEN fail(<<>>)
-     ELSE [res |-> "ok", words |-> written, outside |-> 0, errs |-> <<>>]
+      fail(S) == [res |-> "exit", words |-> IF Bug = "CrPartial" THEN written ELSE blank, outside |-> 0, named |-> names(S)]
+  IN IF ~in.symtab \/ in.sec < 0 THEN [res |-> "exit", words |-> blank, outside |-> 0, named |-> names({})]
+     ELSE IF B # {} /\ Bug # "CrSkipMissing" THEN fail(IF Bug = "CrReportsFirstOnly" THEN {T!MinOf(B)} ELSE B)
+     ELSE IF Strict /\ in.sec < 16 * n THEN fail({})
+     ELSE [res |-> "ok", words |-> written, outside |-> 0, named |-> names({})]
 
 --------------------------------------------------------------------------
 (* LS *)
@@ -138,17 +138,15 @@ WoFam == { [reg |-> r, ver |-> v] : r \in WoRegs, v \in WoVers }
          \cup { [reg |-> << <<"go1.15", << <<"GO_X", x>>, <<"GO_Y", y>> >> >> >>, ver |-> "go1.15"] : x \in WoVals, y \in IF Scope = 1 THEN {W(1)} ELSE WoVals }
 WoHit(key, ver) == IF Bug = "WoPrefixLookup" THEN key = ver \/ (key = "go1.1" /\ ver \in {"go1.15", "go1.150", "go1.15.3"}) \/ (key = "go1.15" /\ ver \in {"go1.150", "go1.15.3"})
                    ELSE key = ver
-WoDLine(e) == e[1] \o " equ " \o (IF Bug = "WoNoHexPrefix" THEN "" ELSE "0x") \o T!Str(T!HexOf(e[2])) \o " ; "
-              \o T!Str(IF Bug = "WoDecIsHex" THEN T!HexOf(e[2]) ELSE T!DecOf(e[2])) \o "\n"
-RECURSIVE WoDBody(_, _)
-WoDBody(t, i) == IF i > Len(t) THEN "" ELSE WoDLine(t[i]) \o WoDBody(t, i + 1)
 WoDesign(in) ==
   LET H == {i \in 1..Len(in.reg) : WoHit(in.reg[i][1], in.ver)}
       t == IF H = {} THEN <<>> ELSE in.reg[T!MinOf(H)][2]
-      tt == IF Bug = "WoReversed" THEN [i \in 1..Len(t) |-> t[Len(t) + 1 - i]] ELSE t
-  IN IF t = <<>> THEN [res |-> "exit", offs |-> <<>>, written |-> FALSE, text |-> ""]
-     ELSE [res |-> "ok", offs |-> t, written |-> TRUE,
-           text |-> ";; Code generated by WriteOffsets for " \o in.ver \o " -- DO NOT EDIT.\n\n" \o WoDBody(tt, 1)]
+      defs == IF Bug = "WoDropsZeroOffsets" THEN SelectSeq(t, LAMBDA e : e[2] # P!ZeroW)
+              ELSE IF Bug = "WoFirstEntryTwice" THEN <<t[1]>> \o t
+              ELSE IF Bug = "WoLowHalfOnly" THEN [i \in 1..Len(t) |-> <<t[i][1], <<0, 0, t[i][2][3], t[i][2][4]>>>>]
+              ELSE t
+  IN IF t = <<>> THEN [res |-> "exit", offs |-> <<>>, written |-> FALSE, defs |-> <<>>]
+     ELSE [res |-> "ok", offs |-> t, written |-> TRUE, defs |-> defs]
 
 --------------------------------------------------------------------------
 (* versions: the left-to-right parser of the design *)
@@ -195,7 +193,7 @@ VerCore == { <<"2">>, <<"2", ".", "2", "6">>, <<"2", ".", "2", "5">>, <<"2", "."
              <<"1", ".", "5", ".", "6">>, <<"1", ".", "4", ".", "8">>, <<"1", "0">>, <<"U", ")">>, <<>> }
 VerSuffix == { <<>>, <<"-", "r", "c", "1">>, <<"+", "b">>, <<"-", "9", "3", ".", "e", "l", "8">>, <<".", "2", "0", "2", "0", "-", "1">>, <<".", "p", "l", "0", "2">>,
                <<"-">>, <<"-", "0", "1">>, <<"-", "a", "+">>, <<"+", "a", ".", "-">>, <<".", "1", ".", "2">> }
-VerCoreQuick == { <<"2">>, <<"2", ".", "2", "6">>, <<"2", ".", "2", "5">>, <<"2", ".", "9">>, <<"2", ".", "0", "2", "6">>, <<"2", ".", "2", "6", ".", "0">>,
+VerCoreQuick == { <<"2">>, <<"2", ".", "2", "6">>, <<"2", ".", "2", "5">>, <<"2", ".", "2", "7">>, <<"3">>, <<"2", ".", "9">>, <<"2", ".", "0", "2", "6">>, <<"2", ".", "2", "6", ".", "0">>,
                   <<"2", ".", "2", "5", ".", "9", "9">>, <<"1", ".", "5", ".", "0">>, <<"1", ".", "4", ".", "9", "9">>, <<"1", ".", "1", "0">>, <<"U", ")">>, <<>> }
 VerStrings == { Cat2(c, x) : c \in IF Scope = 1 THEN VerCoreQuick ELSE VerCore, x \in VerSuffix }
 ObjHeads == { <<"o", " ", "(", "U", " ", "B", ")", " ">>, <<"o", " ">>, <<>> }
@@ -214,16 +212,18 @@ VeDToken(tool, b) ==
            r == IF Strict THEN T!TrimPrefix(T!TrimPrefix(b, <<"G", "N", "U", " ">>), <<"x", "o", "r", "r", "i", "s", "o", " ">>) ELSE r0
            i == T!IndexOf(r, " ")
        IN T!TrimSpace(IF i = 0 THEN r ELSE T!Upto(r, i - 1))
-VeDesignMsg(tool, b) ==
+\* the verdict of the design: "" accepted, otherwise what the rejection shows
+VeDesignVerdict(tool, b) ==
   LET tok == VeDToken(tool, b)
       p == DParse(tok)
       w == P!VeWant(tool)
       core == P!VeDistro(tok)                       \* repaired design: a distribution release suffix is cut off
       q == IF Strict /\ ~p.ok /\ core # <<>> THEN DParse(core) ELSE p
-  IN IF ~q.ok THEN P!Bq(tool) \o ": failed to detect version: " \o T!Quoted(<<"v">> \o tok) \o " is not a valid version"
-     ELSE IF DOlder(q, w) THEN P!Bq(tool) \o ": version v" \o T!Str(tok) \o " is older than " \o P!VeWantS(tool) \o ": install newer " \o P!Bq(P!VePkg(tool))
-     ELSE ""
-VeDesign(in) == [res |-> "ok", msg |-> VeDesignMsg(in.tool, in.banner)]
+  IN IF ~q.ok THEN [ok |-> FALSE, msg |-> <<"b", "a", "d", " ">> \o tok]
+     ELSE IF DOlder(q, w) THEN [ok |-> FALSE, msg |-> <<"o", "l", "d", " ">> \o tok]
+     ELSE [ok |-> TRUE, msg |-> <<>>]
+VeDesign(in) == LET v == VeDesignVerdict(in.tool, in.banner) IN
+                [res |-> "ok", ok |-> v.ok, msg |-> IF Bug = "VeSilentRejection" /\ ~v.ok THEN <<"n", "o">> ELSE v.msg]
 
 (* CD *)
 BObjGood == <<"o", " ", "2", ".", "3", "4", "\n">>
@@ -237,15 +237,14 @@ CdFam == { <<a, b, c, d>> : a \in { <<"objcopy", "absent", 0, <<>>>>, <<"objcopy
                             c \in { <<"grub-mkrescue", "absent", 0, <<>>>>, <<"grub-mkrescue", "present", 1, <<>>>>, <<"grub-mkrescue", "present", 0, <<>>>> },
                             d \in { <<"nasm", "absent", 0, <<>>>>, <<"nasm", "present", 127, <<>>>>, <<"nasm", "present", 0, <<>>>> } }
 CdDesign(in) ==
-  LET msg(t) == IF t[2] = "absent" THEN P!Bq(t[1]) \o " could not be found: install " \o P!Bq(P!CdInstall(t[1]))
-                ELSE IF t[3] # 0 THEN P!Bq(t[1]) \o ": failed to determine version: exit status " \o ToString(t[3])
-                ELSE IF t[1] \in {"objcopy", "xorriso"} THEN VeDesignMsg(t[1], t[4]) ELSE ""
-      probed == IF Bug = "CdSkipNasm" THEN SubSeq(in.tools, 1, 3) ELSE in.tools
-      all == SelectSeq([i \in 1..Len(probed) |-> msg(probed[i])], LAMBDA m : m # "")
-      f == IF Bug = "CdStopAtFirst" /\ all # <<>> THEN <<all[1]>> ELSE all
-      noise == SelectSeq([i \in 1..Len(in.tools) |-> IF in.tools[i][2] = "present" /\ in.tools[i][3] # 0 THEN "kbuild: " ELSE ""], LAMBDA m : m # "")
-  IN IF f = <<>> THEN [res |-> "ok", log |-> noise, paths |-> [i \in 1..Len(in.tools) |-> in.tools[i][1]]]
-     ELSE [res |-> "exit", log |-> noise \o <<P!CdHeader>> \o [i \in 1..Len(f) |-> "\t" \o f[i]], paths |-> <<>>]
+  LET fails(t) == t[2] = "absent" \/ t[3] # 0 \/ (t[1] \in {"objcopy", "xorriso"} /\ ~VeDesignVerdict(t[1], t[4]).ok)
+      probed == IF Bug = "CdSkipNasm" THEN 1..3 ELSE 1..Len(in.tools)
+      all == {i \in probed : fails(in.tools[i])}
+      f == IF Bug = "CdStopAtFirst" /\ all # {} THEN {T!MinOf(all)} ELSE all
+      \* one line of 100 characters per failed tool, in probing order (the mutant lists nasm before grub-mkrescue)
+      rank(i) == IF Bug = "CdNasmBeforeGrub" THEN <<1, 2, 4, 3>>[i] ELSE i
+  IN IF f = {} THEN [res |-> "ok", paths |-> [i \in 1..Len(in.tools) |-> in.tools[i][1]], mention |-> [i \in 1..Len(in.tools) |-> -1]]
+     ELSE [res |-> "exit", paths |-> <<>>, mention |-> [i \in 1..Len(in.tools) |-> IF i \in f THEN 100 * rank(i) ELSE -1]]
 
 --------------------------------------------------------------------------
 (* MM / GV *)
@@ -317,7 +316,7 @@ BwDesign(in) ==
       suf == IF Bug = "BwSuffixKeepsGo" THEN T!RemoveChar(in.ver, ".") ELSE T!RemoveChar(T!TrimPrefix(in.ver, <<"g", "o">>), ".")
       name == "SymbolOffsetsForGo" \o T!Str(suf)
   IN [res |-> "ok", parsed |-> TRUE, pkg |-> IF Bug = "BwPkgMain" THEN "main" ELSE in.pkg,
-      header |-> "// Code generated by gen-version-data.go for " \o v \o " -- DO NOT EDIT.",
+      header |-> "// Code generated by gen-version-data.go for " \o v \o " -- DO NOT EDIT.", marker |-> Bug # "BwNoMarker",
       key |-> IF Bug = "BwKeyIsSuffix" THEN T!Str(suf) ELSE v, initvar |-> name, varname |-> name,
       entries |-> IF Bug = "BwDropLast" /\ in.entries # <<>> THEN SubSeq(in.entries, 1, Len(in.entries) - 1) ELSE in.entries]
 
@@ -399,15 +398,16 @@ CkDesign(in) ==
       isBuildid(l) == LET i == T!IndexOf(l, " ") IN
                       i > 0 /\ P!CkBase(first(l)) = P!CkBuildid /\ (Bug = "CkDropsEveryBuildid" \/ T!HasPrefix(T!From(l, i), P!CkDashW))
       kept == SelectSeq([i \in 1..Len(in.lines) |-> sub(in.lines[i])], LAMBDA l : ~isMv(l) /\ ~isBuildid(l))
-      text == P!CkProlog \o T!Str(Cat([i \in 1..Len(kept) |-> <<T!Str(kept[i]) \o "\n">>], 1))
+      prolog == <<"set -e", "export GOOS=linux", "export GOARCH=amd64", "export CGO_ENABLED=0", "alias pack='go tool pack'", "">>
+      text == prolog \o [i \in 1..Len(kept) |-> T!Str(kept[i])]
       match(l) == IF Bug = "CkContainsKmain" THEN T!IndexOfSub(l, P!CkKmain) > 0 ELSE T!HasSuffix(l, P!CkKmain)
       H == {i \in 1..Len(in.nm) : match(T!TrimSpace(in.nm[i]))}
       ln == T!TrimSpace(in.nm[IF Bug = "CkLastKmain" THEN T!MaxOf(H) ELSE T!MinOf(H)])
       sp == T!IndexOf(ln, " ")
       call == <<"--add-symbol", "kernel.Kmain=.text:0x" \o T!Str(T!Upto(ln, sp - 1)), "--globalize-symbol", "runtime.g0", "--globalize-symbol", "runtime.m0",
                 "--globalize-symbol", "runtime.physPageSize", "$DIR/work/go.o", "$DIR/work/go.o">>
-      base == [res |-> "exit", written |-> TRUE, script |-> text, goenv |-> "GOARCH=amd64 CGO_ENABLED=0 GOPATH=/kernel", goargs |-> P!CkGo, objcopy |-> <<>>]
-  IN IF in.buildrc # 0 THEN [base EXCEPT !.written = FALSE, !.script = ""]
+      base == [res |-> "exit", written |-> TRUE, lines |-> text, goenv |-> "GOARCH=amd64 CGO_ENABLED=0 GOPATH=/kernel", goargs |-> P!CkGo, objcopy |-> <<>>]
+  IN IF in.buildrc # 0 THEN [base EXCEPT !.written = FALSE, !.lines = <<>>]
      ELSE IF in.nmrc # 0 \/ H = {} THEN base
      ELSE IF sp = 0 THEN base
      ELSE IF in.objrc # 0 /\ Bug # "CkIgnoresObjcopyFailure" THEN [base EXCEPT !.objcopy = <<call>>]
